@@ -237,7 +237,14 @@ func TestC14(t *testing.T) {
 				t.Fatal(err)
 			}
 			exited := make(chan error, 1)
-			go func() { exited <- cmd.Wait() }()
+			// every other killed child is left unreaped (a zombie, as under a supervisor that is slow
+			// to collect it) until a new process has opened the database
+			reap := make(chan struct{})
+			unreaped := mode == "kill" && rng.IntN(2) == 0
+			if !unreaped {
+				close(reap)
+			}
+			go func() { <-reap; exited <- cmd.Wait() }()
 			killed := false
 			deadline := time.Now().Add(60 * time.Second)
 			for {
@@ -287,6 +294,25 @@ func TestC14(t *testing.T) {
 					break
 				}
 				time.Sleep(200 * time.Microsecond)
+			}
+			if unreaped {
+				if killed {
+					// wait until the kernel has torn the process down (state Z), then open the database
+					for w := 0; w < 20000; w++ {
+						st, _ := os.ReadFile(fmt.Sprintf("/proc/%d/stat", cmd.Process.Pid))
+						if k := strings.LastIndexByte(string(st), ')'); k < 0 || strings.HasPrefix(string(st[k+1:]), " Z") {
+							break
+						}
+						time.Sleep(250 * time.Microsecond)
+					}
+					if st, err := sqlite.New(db); err != nil {
+						run.Violation("sqlite:reopen-refused-after-kill", fmt.Sprintf("the writer was killed (and not yet collected by its parent); a new process opening the database got: %v [cycle %d]", err, c), map[string]any{"case": i, "plans": plans})
+					} else {
+						st.Close()
+						run.Count("reopens_while_the_killed_writer_was_still_a_zombie", 1)
+					}
+				}
+				close(reap)
 			}
 			<-exited
 			a := readAcks(ackFile)
